@@ -72,9 +72,10 @@ def documented_order(ctx: Context) -> list[str]:
     ok = [src(a) for a in c.args] == ["parameters_bounds", "parameters_precision"]
     ctx.check(ok, "R1.routing", "SearchSpace.__init__:_check_bounds-args", "_check_bounds(parameters_bounds, parameters_precision)",
               f"validation called as {src(c)}", init, c)
-    first_real = [s for s in init.node.body if not (isinstance(s, ast.Expr) and isinstance(s.value, ast.Constant))][0]
+    uses = [s for s in init.node.body if any(isinstance(x, ast.Name) and x.id in ("parameters_bounds", "parameters_precision") for x in ast.walk(s))]
+    first_real = uses[0] if uses else init.node
     ctx.check(any(x is c for x in ast.walk(first_real)), "R1.routing", "SearchSpace.__init__:validate-first",
-              "validation is the first statement of the constructor", "the constructor uses its arguments before validating them", init, first_real)
+              "validation is the first statement that touches the specification", "the constructor uses its arguments before validating them", init, first_real)
     return found
 
 
